@@ -23,7 +23,10 @@ def parseObj (j : Json) : Except String PyObj := do
          dictItems := ← itemList (← j.getObjVal? "items"),
          seq := ← probeOf j "seq" natList, isExc := ← probeOf j "isexc" (fun v => v.getBool?),
          excArgs := ← probeOf j "args" natList, hasDict := ← probeOf j "hasdict" (fun v => v.getBool?),
-         attrs := ← probeOf j "attrs" itemList }
+         attrs := ← probeOf j "attrs" itemList,
+         clsName := ← (match j.getObjVal? "cls" with
+           | .error _ => pure (.ok (← getStr j "ty"))
+           | .ok _ => probeOf j "cls" (fun v => v.getStr?)) }
 
 def parseAction (j : Json) : Except String ActionIn := do
   let l ← j.getObjVal? "limits"
